@@ -7,6 +7,7 @@ import PyamgV.Proofs.GsArrayRefine
 import PyamgV.Proofs.SorAdjoint
 import PyamgV.Proofs.Kaczmarz
 import PyamgV.Model.C02Cycle
+import PyamgV.Proofs.ExtRelaxRefine
 import Mathlib.Algebra.Module.Prod
 
 /-! # C02 — SPD problems: no multigrid cycle increases the energy norm of the error
@@ -174,5 +175,22 @@ example :
     let solve := fun rhs => (C02.gaussSolve Ac rhs).getD #[]
     let x' := C02.cycle solve .V 1 ls #[0, 0, 0] #[1, 1, 1]
     ls.length = 1 ∧ C02.functionalLe A #[1, 1, 1] #[0, 0, 0] x' = true := by decide +kernel
+
+/-! ## the smoother theorems stated for the executable array kernels themselves (Proofs/ExtRelaxRefine.lean) -/
+
+/-- the Gauss-Seidel array kernel `K.gaussSeidel` (the definition compared bit-exactly with relaxation.h), any
+row list: the energy of the error w.r.t. any solution of the first `n` equations never increases -/
+restate gs_array_kernel_nonexpansive := PyamgV.gaussSeidel_array_nonexp
+/-- the SOR array kernel `K.sorGaussSeidel`, `0 ≤ ω ≤ 2` -/
+restate sor_array_kernel_nonexpansive := PyamgV.sorGaussSeidel_array_nonexp
+/-- the Python driver model `K.pyGaussSeidel`: forward / backward / symmetric, any iteration count -/
+restate py_gauss_seidel_nonexpansive := PyamgV.pyGaussSeidel_array_nonexp
+/-- the Python driver model `K.pyJacobi` under the damping bound -/
+restate py_jacobi_nonexpansive := PyamgV.pyJacobi_array_nonexp
+/-- the solution is a fixed point of the driver models, as an array -/
+restate py_gauss_seidel_fixed_point := PyamgV.pyGaussSeidel_fixed_point
+restate py_jacobi_fixed_point := PyamgV.pyJacobi_fixed_point
+/-- non-vacuity: all hypotheses of `py_gauss_seidel_nonexpansive` hold for the 3-point Poisson matrix -/
+restate example_py_gauss_seidel_nonexpansive := PyamgV.example_pyGaussSeidel_nonexp
 
 end PyamgV.Props.C02
